@@ -13,7 +13,7 @@ PROP = dict(
                     "the type_properties<T> templates.  Exploration, not proof."),
         level_note=("trusts the shadow table and the sizeof table in harness/c06_registry.c, gcc ASan+UBSan (malloc fill pattern makes "
                     "uninitialised size fields visible as wrong sizes; no memcheck leg: the runner builds the asan flavour only)"),
-        legs=[dict(name="c06_registry", src=["c06_registry.c"], libs=["mptcore"], batch=1,
+        legs=[dict(name="c06_registry", memcheck=160, src=["c06_registry.c"], libs=["mptcore"], batch=1,
                    floors={"mpt_type_basic_add": 1000, "mpt_type_add": 5000, "mpt_type_interface_add": 1500,
                            "mpt_type_metatype_add": 5000, "mpt_type_traits": 2000000, "mpt_interface_traits": 40000,
                            "mpt_metatype_traits": 500000, "mpt_named_traits:full": 20000, "mpt_named_traits:limited": 20000,
